@@ -504,9 +504,13 @@ func Run(impl Impl) {
 		g.stream = "clean"
 	}
 	n := verifutil.EnvInt("VERIF_N", 40)
-	if impl.Keys != nil {
-		p := make([]string, len(impl.Keys))
-		for i, k := range impl.Keys {
+	{
+		// the model's key constants against the protocol literals (the literals themselves are tied to
+		// the real code by the label maps compared after every writer run)
+		keys := []string{KRef, KDigest, KLayers, KURLsPfx, KURLs, KPrefetch, snapshotters.TargetRefLabel,
+			snapshotters.TargetLayerDigestLabel, snapshotters.TargetImageLayersLabel, snapshotters.TargetManifestDigestLabel}
+		p := make([]string, len(keys))
+		for i, k := range keys {
 			p[i] = hx(k)
 		}
 		out.Emit("keys", strings.Join(p, " "))
